@@ -59,6 +59,16 @@ def run_jobs(jobs, gendir, workroot, with_vacuity=True):
 def main():
     a = sys.argv[1:]
     if not a: print(__doc__); return 2
+    if a[0] == 'freeze-loops':
+        # developer: record the header text of every loop that carries a loop contract (spec/loop_headers.json), from the current tree
+        out = {}
+        if os.path.exists(os.path.join(VERIF, 'spec', 'loop_headers.json')): os.remove(os.path.join(VERIF, 'spec', 'loop_headers.json'))
+        for u in UNITS + [x[:-3] for x in sorted(os.listdir(os.path.join(VERIF, 'units'))) if x.endswith('.py') and not x.startswith('_') and x[:-3] not in UNITS]:
+            mod = load_unit(u)
+            slicer.generate(REPO, mod.UNIT)
+            for f in mod.UNIT['functions']:
+                if f.get('loops'): out[f['name']] = {str(k): f['_heads'][k] for k in range(len(f['_heads']))}
+        json.dump(out, open(os.path.join(VERIF, 'spec', 'loop_headers.json'), 'w'), indent=1, sort_keys=True); print('frozen', len(out), 'functions'); return 0
     if a[0] == 'slice':
         gendir = os.path.join(BUILD, 'gen'); mod, recs = gen_unit(a[1], gendir)
         print(gendir, len(recs), 'functions'); return 0
